@@ -61,6 +61,7 @@ theorem eq_setIdx_of_forget (a b : Ctx) (h : a.forget = b.forget) : a = b.setIdx
   obtain ⟨h1, h2, h3, h4, h5, h6, _, h8⟩ := h
   exact ⟨h1, h2, h3, h4, h5, h6, trivial, h8⟩
 
+
 theorem unprotectRtcp_state_forget (S : Suite) (c : Ctx) (pkt : Bytes) :
     (c.unprotectRtcp S pkt).2.forget = c.forget := by
   unfold Ctx.unprotectRtcp
@@ -70,51 +71,36 @@ theorem unprotectRtcp_state_forget (S : Suite) (c : Ctx) (pkt : Bytes) :
   · rw [if_neg h0]
     by_cases hg : c.profile = .gcm
     · rw [if_pos hg]
-      split <;> exact bumpRtcp_forget _ _
+      split
+      · rfl
+      · exact bumpRtcp_forget _ _
     · rw [if_neg hg]
       split
       · rfl
       · split <;> exact bumpRtcp_forget _ _
 
-/-- a failed `unprotect_rtcp` changes at most the SRTCP index (GCM bumps it before
-authenticating); for the HMAC profiles it changes nothing -/
-theorem unprotectRtcp_err_state (S : Suite) (c : Ctx) (pkt : Bytes) (e : Err)
-    (he : (c.unprotectRtcp S pkt).1 = .error e) :
-    (c.unprotectRtcp S pkt).2.forget = c.forget ∧
-    (c.profile ≠ .gcm → (c.unprotectRtcp S pkt).2 = c) := by
-  refine ⟨unprotectRtcp_state_forget S c pkt, fun hg => ?_⟩
+/-- a failed `unprotect_rtcp` changes nothing (all profiles — since the `fix:` commit that moved the
+GCM index update behind authentication) -/
+theorem unprotectRtcp_err_keeps (S : Suite) (c : Ctx) (pkt : Bytes) (e : Err)
+    (he : (c.unprotectRtcp S pkt).1 = .error e) : (c.unprotectRtcp S pkt).2 = c := by
   unfold Ctx.unprotectRtcp at he ⊢
   simp only at he ⊢
   by_cases h0 : pkt.length < c.profile.rtcpTagLen + 4
   · rw [if_pos h0]
-  · rw [if_neg h0, if_neg hg] at he ⊢
-    split
-    · rfl
-    · rename_i htag
-      rw [if_neg htag] at he
-      split at he <;> simp at he
-
-theorem bumpRtcp_mono (c : Ctx) (i : Nat) : c.rtcpIndex ≤ (c.bumpRtcp i).rtcpIndex := by
-  unfold Ctx.bumpRtcp; split
-  · simp; omega
-  · exact Nat.le_refl _
-
-theorem unprotectRtcp_index_mono (S : Suite) (c : Ctx) (pkt : Bytes) :
-    c.rtcpIndex ≤ (c.unprotectRtcp S pkt).2.rtcpIndex := by
-  unfold Ctx.unprotectRtcp
-  simp only
-  by_cases h0 : pkt.length < c.profile.rtcpTagLen + 4
-  · rw [if_pos h0]; exact Nat.le_refl _
-  · rw [if_neg h0]
+  · rw [if_neg h0] at he ⊢
     by_cases hg : c.profile = .gcm
-    · rw [if_pos hg]
-      split <;> exact bumpRtcp_mono _ _
-    · rw [if_neg hg]
+    · rw [if_pos hg] at he ⊢
       split
-      · exact Nat.le_refl _
-      · split <;> exact bumpRtcp_mono _ _
+      · rfl
+      · rename_i ho; rw [ho] at he; simp at he
+    · rw [if_neg hg] at he ⊢
+      split
+      · rfl
+      · rename_i htag
+        rw [if_neg htag] at he
+        split at he <;> simp at he
 
-/-- HMAC profiles: an accepted SRTCP packet ends in the truncated MAC of everything before it -/
+
 theorem unprotectRtcp_ok_tag (S : Suite) (c : Ctx) (pkt out : Bytes) (hg : c.profile ≠ .gcm)
     (hacc : (c.unprotectRtcp S pkt).1 = .ok out) :
     pkt.drop (pkt.length - c.profile.rtcpTagLen) = rtcpTag S c (pkt.take (pkt.length - c.profile.rtcpTagLen)) := by
@@ -142,115 +128,20 @@ theorem unprotectRtcp_ok_open (S : Suite) (c : Ctx) (pkt out : Bytes) (hg : c.pr
     | none => rw [ho] at hacc; simp at hacc
     | some _ => rfl
 
-/-! ### the SRTCP index is never read on the receive side -/
 
-theorem unprotectRtp_setIdx (S : Suite) (c : Ctx) (i : Nat) (h : Hdr) (p : Bool) (body : Bytes) :
-    (c.setIdx i).unprotectRtp S h p body =
-      ((c.unprotectRtp S h p body).1, (c.unprotectRtp S h p body).2.setIdx i) := by
-  have e1 : (c.setIdx i).profile = c.profile := rfl
-  have e2 : ∀ hb b s r, (c.setIdx i).openRtp S hb b s r = c.openRtp S hb b s r := fun _ _ _ _ => rfl
-  have e3 : ∀ s, (c.setIdx i).estimate s = c.estimate s := fun _ => rfl
-  have e4 : ∀ s r, (c.setIdx i).updated s r = (c.updated s r).setIdx i := fun _ _ => rfl
-  rcases unprotectRtp_cases S c h p body with ⟨h0, hr⟩ | ⟨h0, e, ho, hr⟩ | ⟨h0, pt, e, ho, hs, hr⟩ |
-    ⟨h0, pt, pl, pd, ho, hs, hr⟩
-  all_goals rw [hr]
-  all_goals unfold Ctx.unprotectRtp
-  · simp [e1, h0]
-  · simp [e1, e2, e3, h0, ho]
-  · simp [e1, e2, e3, h0, ho, hs]
-  · simp [e1, e2, e3, e4, h0, ho, hs]
+/-- an SRTCP packet of at least 12 bytes is its first 8 bytes, the middle, and its last 4 bytes -/
+theorem rtcp_aead_split (pkt : Bytes) (h : 12 ≤ pkt.length) :
+    pkt.take 8 ++ (pkt.take (pkt.length - 4)).drop 8 ++ pkt.drop (pkt.length - 4) = pkt := by
+  have h1 : pkt.take 8 = (pkt.take (pkt.length - 4)).take 8 := by
+    rw [List.take_take]; congr 1; omega
+  rw [h1, List.take_append_drop, List.take_append_drop]
 
-theorem unprotectRtcp_setIdx_fst (S : Suite) (c : Ctx) (i : Nat) (pkt : Bytes) :
-    ((c.setIdx i).unprotectRtcp S pkt).1 = (c.unprotectRtcp S pkt).1 := by
-  have e1 : (c.setIdx i).profile = c.profile := rfl
-  have e2 : (c.setIdx i).rtcp = c.rtcp := rfl
-  have e3 : (c.setIdx i).ssrc = c.ssrc := rfl
-  have e4 : ∀ m, rtcpTag S (c.setIdx i) m = rtcpTag S c m := fun _ => rfl
-  have e5 : ∀ k b, rtcpCipher S (c.setIdx i) k b = rtcpCipher S c k b := fun _ _ => rfl
-  unfold Ctx.unprotectRtcp
-  simp only [e1, e2, e3, e4, e5]
-  split
-  · rfl
-  · split
-    · split <;> rfl
-    · split
-      · rfl
-      · split <;> rfl
+/-! ### tables -/
 
-/-! ### tables up to the SRTCP index -/
-
-def tblEq (a b : List Ctx) : Prop := a.map Ctx.forget = b.map Ctx.forget
-
-theorem tblEq_refl (a : List Ctx) : tblEq a a := rfl
-
-theorem tblEq_length {a b : List Ctx} (h : tblEq a b) : a.length = b.length := by
-  have := congrArg List.length h; simpa using this
 
 theorem forget_ssrc_eq {x y : Ctx} (h : x.forget = y.forget) : x.ssrc = y.ssrc := by
   have := congrArg Ctx.ssrc h; simpa using this
 
-theorem forget_lastUsed_eq {x y : Ctx} (h : x.forget = y.forget) : x.lastUsed = y.lastUsed := by
-  have := congrArg Ctx.lastUsed h; simpa using this
-
-theorem lookup_tblEq : ∀ {a b : List Ctx}, tblEq a b → ∀ k,
-    (lookup a k).map Ctx.forget = (lookup b k).map Ctx.forget
-  | [], [], _, _ => rfl
-  | [], _ :: _, h, _ => by simp [tblEq] at h
-  | _ :: _, [], h, _ => by simp [tblEq] at h
-  | x :: xs, y :: ys, h, k => by
-    simp only [tblEq, List.map_cons, List.cons.injEq] at h
-    have hs := forget_ssrc_eq h.1
-    simp only [lookup, List.find?_cons, hs]
-    by_cases hk : y.ssrc = k
-    · simp [hk, h.1]
-    · simp only [hk, decide_false]
-      exact lookup_tblEq (a := xs) (b := ys) h.2 k
-
-theorem replace_tblEq : ∀ {a b : List Ctx}, tblEq a b → ∀ {c d : Ctx}, c.forget = d.forget →
-    tblEq (replace a c) (replace b d)
-  | [], [], _, _, _, _ => rfl
-  | [], _ :: _, h, _, _, _ => by simp [tblEq] at h
-  | _ :: _, [], h, _, _, _ => by simp [tblEq] at h
-  | x :: xs, y :: ys, h, c, d, hcd => by
-    simp only [tblEq, List.map_cons, List.cons.injEq] at h
-    have hs := forget_ssrc_eq h.1
-    have hs' := forget_ssrc_eq hcd
-    simp only [replace, hs, hs']
-    by_cases hk : y.ssrc = d.ssrc
-    · simp only [hk, if_true, tblEq, List.map_cons, hcd, h.2]
-    · simp only [hk, if_false, tblEq, List.map_cons, h.1]
-      have := replace_tblEq (a := xs) (b := ys) h.2 hcd
-      simp only [tblEq] at this
-      rw [this]
-
-theorem filter_tblEq : ∀ {a b : List Ctx}, tblEq a b → ∀ (keep now : Nat),
-    tblEq (a.filter (fun c => c.ssrc = keep ∨ now - c.lastUsed < ssrcInactivityEvictSecs))
-          (b.filter (fun c => c.ssrc = keep ∨ now - c.lastUsed < ssrcInactivityEvictSecs))
-  | [], [], _, _, _ => rfl
-  | [], _ :: _, h, _, _ => by simp [tblEq] at h
-  | _ :: _, [], h, _, _ => by simp [tblEq] at h
-  | x :: xs, y :: ys, h, keep, now => by
-    simp only [tblEq, List.map_cons, List.cons.injEq] at h
-    have hs := forget_ssrc_eq h.1
-    have hl := forget_lastUsed_eq h.1
-    have ih := filter_tblEq (a := xs) (b := ys) h.2 keep now
-    simp only [List.filter_cons, hs, hl]
-    split
-    · simp only [tblEq, List.map_cons, h.1] at ih ⊢; rw [ih]
-    · exact ih
-
-theorem evict_tblEq {a b : List Ctx} (h : tblEq a b) (keep now : Nat) :
-    tblEq (evict a keep now) (evict b keep now) := by
-  unfold evict
-  rw [tblEq_length h]
-  split
-  · exact h
-  · exact filter_tblEq h keep now
-
-theorem append_tblEq {a b : List Ctx} (h : tblEq a b) {c d : Ctx} (hcd : c.forget = d.forget) :
-    tblEq (a ++ [c]) (b ++ [d]) := by
-  simp only [tblEq, List.map_append, List.map_cons, List.map_nil] at h ⊢
-  rw [h, hcd]
 
 theorem replace_lookup_self : ∀ (t : List Ctx) (k : Nat) (c : Ctx), lookup t k = some c → replace t c = t
   | [], _, _, h => by simp [lookup] at h
@@ -315,93 +206,6 @@ theorem withRx_none_ok {c : Ctx} {a : α} (hl : lookup s.rx ssrc = none)
 
 end withRx
 
-/-! ### sessions up to the SRTCP indices of the receive contexts -/
-
-structure Sess.obsEq (a b : Sess) : Prop where
-  profile : a.profile = b.profile
-  txMk : a.txMk = b.txMk
-  txMs : a.txMs = b.txMs
-  rxMk : a.rxMk = b.rxMk
-  rxMs : a.rxMs = b.rxMs
-  tx : a.tx = b.tx
-  rx : tblEq a.rx b.rx
-
-theorem Sess.obsEq.refl (a : Sess) : Sess.obsEq a a := ⟨rfl, rfl, rfl, rfl, rfl, rfl, rfl⟩
-
-theorem Sess.obsEq.symm {a b : Sess} (h : Sess.obsEq a b) : Sess.obsEq b a :=
-  ⟨h.profile.symm, h.txMk.symm, h.txMs.symm, h.rxMk.symm, h.rxMs.symm, h.tx.symm, Eq.symm h.rx⟩
-
-theorem Sess.obsEq.trans {a b c : Sess} (h : Sess.obsEq a b) (g : Sess.obsEq b c) : Sess.obsEq a c :=
-  ⟨h.profile.trans g.profile, h.txMk.trans g.txMk, h.txMs.trans g.txMs, h.rxMk.trans g.rxMk,
-   h.rxMs.trans g.rxMs, h.tx.trans g.tx, Eq.trans h.rx g.rx⟩
-
-/-- `f` neither reads the SRTCP index nor lets it influence anything but the index -/
-def RxRespects {α : Type} (f : Ctx → Except Err α × Ctx) : Prop :=
-  ∀ c i, (f (c.setIdx i)).1 = (f c).1 ∧ (f (c.setIdx i)).2.forget = (f c).2.forget
-
-theorem respects_of_forget {α : Type} {f : Ctx → Except Err α × Ctx} (hf : RxRespects f)
-    {c d : Ctx} (h : c.forget = d.forget) : (f c).1 = (f d).1 ∧ (f c).2.forget = (f d).2.forget := by
-  rw [eq_setIdx_of_forget c d h]; exact hf d _
-
-theorem stamp_forget {c d : Ctx} (h : c.forget = d.forget) (now : Nat) :
-    ({ c with lastUsed := now } : Ctx).forget = ({ d with lastUsed := now } : Ctx).forget := by
-  cases c; cases d
-  simp only [Ctx.forget, Ctx.mk.injEq] at h ⊢
-  obtain ⟨h1, h2, h3, h4, h5, h6, _, _⟩ := h
-  exact ⟨h1, h2, h3, h4, h5, h6, trivial, trivial⟩
-
-theorem withRx_obsEq {α : Type} (S : Suite) {s1 s2 : Sess} (h : Sess.obsEq s1 s2) (now ssrc : Nat)
-    (f : Ctx → Except Err α × Ctx) (hf : RxRespects f) :
-    (s1.withRx S now ssrc f).1 = (s2.withRx S now ssrc f).1 ∧
-    Sess.obsEq (s1.withRx S now ssrc f).2 (s2.withRx S now ssrc f).2 := by
-  have hl := lookup_tblEq h.rx ssrc
-  have mk : ∀ {r1 r2 : List Ctx}, tblEq r1 r2 → Sess.obsEq { s1 with rx := r1 } { s2 with rx := r2 } :=
-    fun hr => ⟨h.profile, h.txMk, h.txMs, h.rxMk, h.rxMs, h.tx, hr⟩
-  cases h1 : lookup s1.rx ssrc with
-  | none =>
-    have h2 : lookup s2.rx ssrc = none := by
-      rw [h1] at hl; cases h2 : lookup s2.rx ssrc with
-      | none => rfl
-      | some _ => rw [h2] at hl; simp at hl
-    have hnew : Ctx.new S ssrc s1.profile s1.rxMk s1.rxMs now = Ctx.new S ssrc s2.profile s2.rxMk s2.rxMs now := by
-      rw [h.profile, h.rxMk, h.rxMs]
-    cases hn : Ctx.new S ssrc s1.profile s1.rxMk s1.rxMs now with
-    | error e =>
-      rw [withRx_none_newerr S s1 now ssrc f h1 hn, withRx_none_newerr S s2 now ssrc f h2 (hnew ▸ hn)]
-      exact ⟨rfl, h⟩
-    | ok c =>
-      cases hr : (f c).1 with
-      | error e =>
-        rw [withRx_none_err S s1 now ssrc f h1 hn hr, withRx_none_err S s2 now ssrc f h2 (hnew ▸ hn) hr]
-        exact ⟨rfl, h⟩
-      | ok a =>
-        rw [withRx_none_ok S s1 now ssrc f h1 hn hr, withRx_none_ok S s2 now ssrc f h2 (hnew ▸ hn) hr]
-        exact ⟨rfl, mk (append_tblEq (evict_tblEq h.rx ssrc now) rfl)⟩
-  | some c1 =>
-    cases h2 : lookup s2.rx ssrc with
-    | none => rw [h1, h2] at hl; simp at hl
-    | some c2 =>
-      rw [h1, h2] at hl
-      simp only [Option.map_some, Option.some.injEq] at hl
-      obtain ⟨hr, hc⟩ := respects_of_forget hf hl
-      cases hr1 : (f c1).1 with
-      | error e =>
-        rw [withRx_some_err S s1 now ssrc f h1 hr1, withRx_some_err S s2 now ssrc f h2 (hr ▸ hr1)]
-        exact ⟨rfl, mk (replace_tblEq h.rx hc)⟩
-      | ok a =>
-        rw [withRx_some_ok S s1 now ssrc f h1 hr1, withRx_some_ok S s2 now ssrc f h2 (hr ▸ hr1)]
-        exact ⟨rfl, mk (evict_tblEq (replace_tblEq h.rx (stamp_forget hc now)) ssrc now)⟩
-
-theorem respects_unprotectRtp (S : Suite) (h : Hdr) (p : Bool) (body : Bytes) :
-    RxRespects (fun c => c.unprotectRtp S h p body) := by
-  intro c i
-  simp only [unprotectRtp_setIdx, setIdx_forget, and_self]
-
-theorem respects_unprotectRtcp (S : Suite) (pkt : Bytes) :
-    RxRespects (fun c => c.unprotectRtcp S pkt) := by
-  intro c i
-  refine ⟨unprotectRtcp_setIdx_fst S c i pkt, ?_⟩
-  simp only [unprotectRtcp_state_forget, setIdx_forget]
 
 /-! ### acceptance in the two families of profiles -/
 
@@ -460,48 +264,5 @@ def Out.isReject : Out → Bool
   | .rtcp (.error _) => true
   | _ => false
 
-theorem step_obsEq (S : Suite) {s1 s2 : Sess} (h : Sess.obsEq s1 s2) (o : Op) :
-    (step S s1 o).1 = (step S s2 o).1 ∧ Sess.obsEq (step S s1 o).2 (step S s2 o).2 := by
-  cases o with
-  | rtpIn now raw =>
-    simp only [step, Sess.receiveRtp]
-    cases hp : parseHdr raw with
-    | error e => exact ⟨rfl, h⟩
-    | ok v =>
-      obtain ⟨hd, p, body⟩ := v
-      simp only
-      have := withRx_obsEq S h now hd.ssrc _ (respects_unprotectRtp S hd p body)
-      unfold Sess.unprotectRtp
-      revert this
-      cases (s1.withRx S now hd.ssrc fun c => c.unprotectRtp S hd p body) with
-      | mk r1 t1 =>
-        cases (s2.withRx S now hd.ssrc fun c => c.unprotectRtp S hd p body) with
-        | mk r2 t2 =>
-          simp only
-          rintro ⟨rfl, ht⟩
-          cases r1 <;> exact ⟨rfl, ht⟩
-  | rtcpIn now pkt =>
-    simp only [step, Sess.unprotectRtcp]
-    split
-    · exact ⟨rfl, h⟩
-    · have := withRx_obsEq S h now (ssrcOfRtcp pkt) _ (respects_unprotectRtcp S pkt)
-      exact ⟨by rw [this.1], this.2⟩
-  | rtpOut now p =>
-    simp only [step, Sess.protectRtp, Sess.withTx, h.tx, h.profile, h.txMk, h.txMs]
-    split
-    · exact ⟨rfl, ⟨rfl, rfl, rfl, h.rxMk, h.rxMs, rfl, h.rx⟩⟩
-    · split
-      · exact ⟨rfl, ⟨rfl, rfl, rfl, h.rxMk, h.rxMs, rfl, h.rx⟩⟩
-      · exact ⟨rfl, ⟨rfl, rfl, rfl, h.rxMk, h.rxMs, rfl, h.rx⟩⟩
-  | rtcpOut now pkt =>
-    simp only [step, Sess.protectRtcp]
-    split
-    · exact ⟨rfl, h⟩
-    · simp only [Sess.withTx, h.tx, h.profile, h.txMk, h.txMs]
-      split
-      · exact ⟨rfl, ⟨rfl, rfl, rfl, h.rxMk, h.rxMs, rfl, h.rx⟩⟩
-      · split
-        · exact ⟨rfl, ⟨rfl, rfl, rfl, h.rxMk, h.rxMs, rfl, h.rx⟩⟩
-        · exact ⟨rfl, ⟨rfl, rfl, rfl, h.rxMk, h.rxMs, rfl, h.rx⟩⟩
 
 end RtcModel.Srtp
